@@ -6,11 +6,15 @@ from props import tbcommon as tb
 PROP = "C08"
 ENGINE = "tok"
 USES_TRANSLATOR = True
-LEAN_TARGETS = ["H5V.Props.C08"]
-AUDIT_IMPORTS = ["H5V.Props.C08"]
+LEAN_TARGETS = ["H5V.Props.C08", "H5V.Props.C08Run"]
+AUDIT_IMPORTS = ["H5V.Props.C08Run"]
 THEOREMS = ["H5V.Props.C08." + t for t in [
     "C08_sets_match", "C08_sets_contain_breaks", "C08_simd_sets", "C08_fast_slow_same", "C08_unquoted_error_only",
-    "C08_exact_reader", "C08_bom_off", "C08_bom_on"]]
+    "C08_exact_reader", "C08_bom_off", "C08_bom_on",
+    # whole-run independence of exact_errors (Props/C08Run.lean)
+    "E_iff", "PolE.of_noErr", "polNone_PolE", "C08_step_optE", "C08_run_optE", "C08_feed_optE", "C08_finish_optE",
+    "C08_session_optE", "C08_exact_errors_tokens", "C08_exact_errors_on_off"]] + [
+    "H5V.Model.HtmlTok." + t for t in ["transChar_E0", "transSet_E0", "transEof_E0", "step_RE", "finish_E"]]
 TRUSTED = [
     "Lean 4 kernel; axioms ⊆ {propext, Classical.choice, Quot.sound} (audited per run)",
     "tools/extract.py regenerates lean/H5V/Gen/TokSets.lean (every small_char_set! per state arm + the SIMD stop sets) "
@@ -21,8 +25,10 @@ TRUSTED = [
     "forces the scalar path)",
 ]
 ASSUMPTIONS = [
-    "C08_exact_errors_partial: the whole-run statement (token streams equal modulo parse errors) is decided by the "
-    "oracle on the real code and by the correspondence for the model; the theorems prove its per-transition core",
+    "the sink does not look at parse errors (PolE: its answers depend on the token history only through the non-error "
+    "tokens; true of the tree builder, whose ParseError arm only calls sink.parse_error) - hypothesis of "
+    "C08_exact_errors_tokens",
+    "tree-builder options (exact_errors, drop_doctype) and `profile`: decided by the option-flipping oracle on the real code",
     "the xml5ever twins of the tokenizer options are covered by C15",
 ]
 RULE = ("every input of the tokenizer cover + boundary inputs + seeded soup, whole and under several chunkings, is run "
